@@ -148,6 +148,18 @@ def corruptions(doc):
                 def ch_descr(d):
                     d.attrs["shortDescription"] = "a different description"
                 variants += [ch_abs, ch_entry, ch_descr]
+                # an entry of the duplicate refers to the CONTAINER of a name where the original refers to the PARAMETER of that name (names
+                # shared across kinds): same entry names, another layout
+                cont_names = {c.attrs["name"] for c in find_set(base, "ContainerSet").children}
+                el0 = next(k for k in find_set(base, set_tag).children[i].children if k.tag == "EntryList")
+                swappable = [j for j, e in enumerate(el0.children) if e.tag == "ParameterRefEntry" and e.attrs["parameterRef"] in cont_names
+                             and e.attrs["parameterRef"] != name and e.attrs["parameterRef"] not in ("CCSDSPacket",)]
+                if swappable:
+                    def ch_kind(d, j=swappable[0]):
+                        el = next(k for k in d.children if k.tag == "EntryList")
+                        ref = el.children[j].attrs["parameterRef"]
+                        el.children[j] = El("ContainerRefEntry", {"containerRef": ref})
+                    variants.append(ch_kind)
             for vi, fn in enumerate(variants):
                 for where in ("end", "after"):
                     t = clone(base)
